@@ -44,6 +44,7 @@ type Engine struct {
 	finfo  sync.Map // *ssa.Function -> *funcInfo
 	memoMu sync.RWMutex
 	memo   map[string]*memoEntry
+	impure map[string]bool
 
 	baseMu      sync.Mutex
 	baseGlobals map[*ssa.Global]*value
@@ -134,7 +135,7 @@ func Load(repoDir string, overlayDirs map[string]string) (*Engine, error) {
 	prog, _ := ssautil.AllPackages(initial, ssa.InstantiateGenerics|ssa.SanityCheckFunctions)
 	prog.Build()
 	e := &Engine{Prog: prog, Pkgs: map[string]*ssa.Package{}, Fset: prog.Fset, RepoDir: repoDir,
-		subject: map[string]bool{}, Sources: map[string]string{}, Solver: "z3", memo: map[string]*memoEntry{}}
+		subject: map[string]bool{}, Sources: map[string]string{}, Solver: "z3", memo: map[string]*memoEntry{}, impure: map[string]bool{}}
 	for _, p := range prog.AllPackages() {
 		e.Pkgs[p.Pkg.Path()] = p
 	}
